@@ -5,6 +5,7 @@
 import MotoModel.Proofs.DiskSector
 import MotoModel.Props.C07
 import MotoModel.Proofs.DiskPreserve
+import MotoModel.Proofs.DiskRuns
 namespace Moto.C06
 open Moto Moto.Disk
 
@@ -103,5 +104,32 @@ theorem used_blocks_not_chosen (bat : List Nat) (k : Nat) (b : Nat) (h : isFree 
   intro hm
   have := (chosen_free bat k b hm).2
   rw [h] at this; cases this
+
+end Moto.C06
+
+namespace Moto.C06
+open Moto Moto.Disk
+
+/-- **C06 (adding never disturbs what is there — the whole invocation)**: `--add` on the archive of
+    any consistent image (whoever wrote it, however fragmented, with or without deleted entries),
+    with any batch of sources, returns 0 and writes the archive of a consistent image in which every
+    file that was stored is still stored in the same catalog slot of the same side with the same
+    sixteen entry bytes (name, extension, kind, flag, first block, bytes in the last sector) and the
+    same content; every other file of the new image is the exact data of one of the sources. -/
+theorem add_keeps_every_file (fl : Flavour) (w : Tape.World) (verbose : Bool) (archive : Str) (img : Image) (srcs : List Str)
+    (himg : ImgOk img) (hs : ∀ src ∈ srcs, CleanSrc src) :
+    ∃ img', ImgOk img' ∧ (add fl w verbose archive (save fl img) srcs).status = .ret 0
+      ∧ (add fl w verbose archive (save fl img) srcs).writes = [(archive, save fl img')]
+      ∧ Keeps img img' ∧ OnlyFrom w srcs img img' := by
+  obtain ⟨st, hst, hok, hk, hof⟩ := performCore_files w verbose img srcs himg hs
+  rw [add_on_saved fl w verbose archive img srcs himg]
+  refine ⟨st.img, hok, ?_, ?_, hk, hof⟩
+  · unfold performOn; rw [if_neg (by rw [himg.1]; omega), hst]
+  · unfold performOn; rw [if_neg (by rw [himg.1]; omega), hst]
+
+/-- `Keeps`, spelled out -/
+theorem keeps_means (a b : Image) (h : Keeps a b) (k j : Nat) (hk : k < 4) (hj : j < 112) (rec16 content : Bytes)
+    (hf : fileAt (a.getD k []) j = some (rec16, content)) : fileAt (b.getD k []) j = some (rec16, content) :=
+  h k j _ hk hj hf
 
 end Moto.C06
